@@ -121,7 +121,16 @@ def run_case(case: Dict[str, Any], ctx) -> None:
             numel *= int(d)
         return (torch.arange(numel, dtype=torch.int64) % int(high)).reshape(tuple(size)).to(dtype)
 
-    X = x[:, None].expand(n, D).contiguous()
+    X = x[:, None].expand(n, D)
+    if case["seed"] % 3 == 0:
+        # the argument stays a BROADCAST VIEW (stride 0 along the draw axis: what expand() / the gradient of sum() hands over):
+        # every element still needs its own draw
+        ctx.count("form:broadcast-view-argument")
+    elif case["seed"] % 3 == 1:
+        X = X.t().contiguous().t()  # dense, column-major
+        ctx.count("form:transposed-argument")
+    else:
+        X = X.contiguous()
     ver = X._version
     keep = X.clone()
     try:
